@@ -354,6 +354,33 @@ func c03Located() [][4]string { // program, line, col, message substring
 	return out
 }
 
+// c03DeclUse: every malformed way of declaring N crossed with every way of using it.
+func c03DeclUse() []string {
+	types := []string{"foo", "", "[]", "{}", "[]foo", "{}[]", "num num", ":", "1", "any any", "[", "[]{", "num...", "...", "(num)", "\"s\""}
+	uses := []string{"print N+1", "print N[0]", "print N.a", "N = 1", "N[0] = 1", "N.a = 1", "print (len N)", "for e := range N\n    print e\nend", "if N\n    print 1\nend",
+		"print -N !N", "print N.(num)", "print N == N", "print [N] {a:N}", "M := N\nprint M", "M := N + N\nprint M", "M := N[:1]\nprint M", "while N\n    break\nend", "print N N"}
+	var out []string
+	for _, t := range types {
+		for _, u := range uses {
+			use := strings.ReplaceAll(u, "N", "x")
+			ind := indent(use, 1)
+			out = append(out,
+				"x:"+t+"\n"+use+"\n",
+				"func f x:"+t+"\n"+ind+"end\nf 1\n",
+				"func f x:num y:"+t+"\n"+ind+"    print y\nend\nf 1 2\n",
+				"func f x:"+t+"...\n"+ind+"end\nf 1\n",
+				"func x:"+t+"\n    return 1\nend\n"+strings.ReplaceAll(u, "N", "(x)")+"\n",
+				"on down x:"+t+" y:num\n"+ind+"end\n",
+				"on key x:"+t+"\n"+ind+"end\n",
+				"on down y:num x:"+t+"\n"+ind+"end\n",
+				"y:any\nx := y.("+t+")\n"+use+"\n",
+				"for x := range "+t+"\n"+ind+"end\n",
+			)
+		}
+	}
+	return out
+}
+
 func c03Bases(rng *rand.Rand, n int) []string {
 	var bases []string
 	for _, f := range []string{"docs/spec.md", "docs/builtins.md", "docs/syntax-by-example.md"} {
@@ -410,6 +437,11 @@ func RunC03(d *Driver) *Report {
 				c03Lex(r, d, "lexer-mutation", m)
 			}
 		}
+	}
+	// malformed declarations followed by every kind of use of the declared name: the parser goes on after
+	// the first error with partially built nodes (nil types)
+	for _, prog := range c03DeclUse() {
+		c03Parse(r, "declared-then-used", prog)
 	}
 	// random runes and bytes for the lexer
 	alphabet := []rune(" \t\r\n\x00\"\\/=!<>:.+-*%(){}[]_aZ09é٣日 �'#@;,")
